@@ -394,3 +394,87 @@ func timeNow(fr *frame, a []value) value {
 	ext := ts.Bin(OpAdd, sec.t, ts.Const(64, uint64(unixToInternal)))
 	return structure{i.mkVal(ts.ZExt(ns.t, 64), types.Uint64), i.mkVal(ext, types.Int64), loc}
 }
+
+// ---------------------------------------------------------------------------------------
+// Minimal reflect support (only what rtmp.ExpectPacket uses), answered from go/types.
+// reflect.Type values are iface{t: *reflect.rtype, v: rtype{T}}; reflect.Value values are
+// structure{rtype{T}, payload, lvalue *value or nil}.
+
+func (i *interpreter) reflectType(t types.Type) value {
+	pkg := i.prog.ImportedPackage("reflect")
+	rt := pkg.Type("rtype").Object().Type()
+	return iface{t: types.NewPointer(rt), v: rtype{t}}
+}
+
+func init() {
+	externals["reflect.TypeOf"] = func(fr *frame, a []value) value {
+		x := a[0].(iface)
+		if x.t == nil {
+			return iface{}
+		}
+		return fr.i.reflectType(x.t)
+	}
+	externals["(*reflect.rtype).Elem"] = func(fr *frame, a []value) value {
+		t := a[0].(rtype).t
+		switch u := t.Underlying().(type) {
+		case *types.Pointer:
+			return fr.i.reflectType(u.Elem())
+		case *types.Slice:
+			return fr.i.reflectType(u.Elem())
+		}
+		fr.i.abort(abUnsupported, "reflect.Type.Elem on "+t.String())
+		return nil
+	}
+	externals["(*reflect.rtype).Implements"] = func(fr *frame, a []value) value {
+		t := a[0].(rtype).t
+		u := a[1].(iface).v.(rtype).t
+		it, ok := u.Underlying().(*types.Interface)
+		if !ok {
+			panic(targetPanic{iface{fr.i.runtimeErrorString, "reflect: non-interface type passed to Type.Implements"}})
+		}
+		return types.Implements(t, it)
+	}
+	externals["(*reflect.rtype).AssignableTo"] = func(fr *frame, a []value) value {
+		t := a[0].(rtype).t
+		u := a[1].(iface).v.(rtype).t
+		return types.AssignableTo(t, u)
+	}
+	externals["(*reflect.rtype).String"] = func(fr *frame, a []value) value { return a[0].(rtype).t.String() }
+	externals["reflect.ValueOf"] = func(fr *frame, a []value) value {
+		x := a[0].(iface)
+		if x.t == nil {
+			return structure{rtype{nil}, nil, (*value)(nil)}
+		}
+		return structure{rtype{x.t}, x.v, (*value)(nil)}
+	}
+	externals["(reflect.Value).Elem"] = func(fr *frame, a []value) value {
+		v := a[0].(structure)
+		t := v[0].(rtype).t
+		p, ok := t.Underlying().(*types.Pointer)
+		if !ok {
+			fr.i.abort(abUnsupported, "reflect.Value.Elem on a non-pointer")
+		}
+		ptr := v[1].(*value)
+		if ptr == nil {
+			return structure{rtype{nil}, nil, (*value)(nil)}
+		}
+		return structure{rtype{p.Elem()}, load(p.Elem(), ptr), ptr}
+	}
+	externals["(reflect.Value).Set"] = func(fr *frame, a []value) value {
+		dst, src := a[0].(structure), a[1].(structure)
+		lv := dst[2].(*value)
+		if lv == nil {
+			panic(targetPanic{iface{fr.i.runtimeErrorString, "reflect: reflect.Value.Set using unaddressable value"}})
+		}
+		dt, st := dst[0].(rtype).t, src[0].(rtype).t
+		if !types.AssignableTo(st, dt) {
+			panic(targetPanic{iface{fr.i.runtimeErrorString, "reflect.Set: value of type " + st.String() + " is not assignable to type " + dt.String()}})
+		}
+		if _, isIface := dt.Underlying().(*types.Interface); isIface {
+			fr.i.storeAddr(dt, lv, iface{t: st, v: src[1]})
+		} else {
+			fr.i.storeAddr(dt, lv, src[1])
+		}
+		return nil
+	}
+}
